@@ -644,9 +644,32 @@ pub fn run_c05(tier: Tier) -> i32 {
             }
         }
     }
+    // packet numbering and the stop rule across a scheme change in mid-session: k packets under a scheme with stop a
+    // (one 150-byte write per padded packet), a push of a scheme with stop b (200-byte writes), 4 more packets
+    {
+        let stops: Vec<usize> = if thorough { vec![1, 2, 3, 4, 5, 8, 12] } else { vec![1, 2, 3, 5, 8] };
+        for &a in &stops {
+            for &b in &stops {
+                for k in 0..=(a.max(b) + 1) {
+                    rep.case(Some(&format!("push mid-session {a}->{b} after {k}")));
+                    let Ok(writes) = crate::props::c19::session_case(a, b, k, 4) else { continue }; // a disturbed session is C19's / C04's business
+                    for (i, w) in writes.iter().enumerate() {
+                        let p = i + 1; // packet number
+                        let (stop, size) = if p <= k { (a, 150) } else { (b, 200) };
+                        let want: Vec<usize> = if p < stop { vec![size] } else { vec![27] };
+                        if *w != want {
+                            let key = if p >= stop { "C05:padding-where-none-allowed" } else { "C05:shape-not-permitted" };
+                            rep.violation(key, &format!("session with stop={a} (150-byte packets), push of a scheme with stop={b} (200-byte packets) after {k} packet(s): packet {p} went out as {:?}; line {p} of the scheme in force ({}) prescribes {:?}", w, if p >= stop { "at or beyond its stop: no padding" } else { "below its stop" }, want), json!({"engine": "IX", "old_stop": a, "new_stop": b, "packets_before_push": k}));
+                            break;
+                        }
+                    }
+                }
+            }
+        }
+    }
     let cap = Duration::from_secs(if thorough { 900 } else { 40 });
     run_items(&mut rep, "C05", tier, c05_items(tier), DxOpts { time_cap: cap, det_replays: 8, max_violations: 3, vacuity_check: true });
-    rep.finish("IX: every scheme line of <=2 (thorough 3) entries over 12 entry forms x stop x draw policy {min,max,min+1} x 10 payload sizes per packet (+ every line of 3..4 (thorough 5) entries over the reduced alphabet {c, 7, 8, 30, 100-400}), write lengths of every flush-delimited batch checked by the reference acceptor for its line; preamble for every line 0, and for sessions the real Client dials after a push (child processes against a scripted TLS server); DX: 2-3 concurrent writers on a fresh session with <= B pre-emptions (wire order vs packet index); non-trivial = distinct case with an actually shaped packet / trace with >= 1 deviation")
+    rep.finish("IX: every scheme line of <=2 (thorough 3) entries over 12 entry forms x stop x draw policy {min,max,min+1} x 10 payload sizes per packet (+ every line of 3..4 (thorough 5) entries over the reduced alphabet {c, 7, 8, 30, 100-400}), write lengths of every flush-delimited batch checked by the reference acceptor for its line; preamble for every line 0, and for sessions the real Client dials after a push (child processes against a scripted TLS server); packet numbering and the stop rule across a push in mid-session (stop x stop x push instant); DX: 2-3 concurrent writers on a fresh session with <= B pre-emptions (wire order vs packet index); non-trivial = distinct case with an actually shaped packet / trace with >= 1 deviation")
 }
 
 pub fn replay_c05(file: &str) -> i32 {
